@@ -32,7 +32,9 @@ func (p *c15) Init(tier string, seed int64) {
 	p.zoo = append(gen.Scalars(), gen.Containers()...)
 	p.ints = []int64{0, 1, -1, 2, 3, 7, 10, 42, 100, 127, -128, 128, 255, 256, 999, 1000, 32767, -32768, 65535, 65536,
 		99999, 100000, 999999, 1000000, 1000001, 16777216, 16777217, 2147483647, -2147483648, 4294967295, 4294967296,
-		123456789, 1e9, 1e12, 1e15, 999999999999999, 1 << 53, -(1 << 53), (1 << 53) - 1}
+		123456789, 1e9, 1e12, 1e15, 999999999999999, 1 << 53, -(1 << 53), (1 << 53) - 1,
+		// beyond 2^24: integers that a float32 still holds exactly (few significant bits)
+		1 << 25, 1 << 27, 5 << 26, 1 << 31, -(1 << 31), 3 << 30, 1 << 40, 1 << 52, 12345678 << 8, (1<<24 - 1) << 20, 33554434, -(1 << 27)}
 	p.nZoo, p.nInts = len(p.zoo), len(p.ints)
 	p.nI16 = 65536 / 512
 	p.nFl = p.pick(100, 2000) // blocks of 1000 random floats
@@ -89,8 +91,8 @@ func carriers(n int64) []gen.Named {
 		add("uint64", uint64(n))
 		add("uint", uint(n))
 	}
-	if n >= -(1<<24) && n <= 1<<24 {
-		add("float32", float32(n))
+	if n >= -(1<<53) && n <= 1<<53 && float64(float32(n)) == float64(n) {
+		add("float32", float32(n)) // every integer up to 2^24, and beyond that the ones a float32 holds exactly
 	}
 	if n >= -(1<<53) && n <= 1<<53 {
 		add("float64", float64(n))
@@ -244,6 +246,22 @@ func (p *c15) Run(i int) (res fw.Result) {
 				continue
 			}
 			res.Evals++
+			if k%8 < 4 {
+				// the float32 nearest to f is printed first, then its float64 twin: what one call did must not
+				// colour the next (the two are different values of different types with the same float64 image)
+				n32 := float32(f)
+				if w := float64(n32); !math.IsInf(w, 0) {
+					_ = stick.CoerceString(n32)
+					sw := stick.CoerceString(w)
+					if bw := stick.CoerceNumber(sw); !sameNum(bw, w) {
+						res.Fail("float-roundtrip", fmt.Sprintf("c15:rt32:%x", math.Float64bits(w)), fmt.Sprintf("after CoerceString(float32(%v)): CoerceNumber(CoerceString(float64 %v [bits %#x])) = CoerceNumber(%q) = %v", n32, w, math.Float64bits(w), sw, bw), nil)
+					}
+					if again := stick.CoerceString(w); again != sw {
+						res.Fail("float-roundtrip", fmt.Sprintf("c15:rt32b:%x", math.Float64bits(w)), fmt.Sprintf("CoerceString(%v) gave %q and then %q", w, sw, again), nil)
+					}
+					res.Evals++
+				}
+			}
 			s := stick.CoerceString(f)
 			back := stick.CoerceNumber(s)
 			if !sameNum(back, f) {
@@ -294,7 +312,7 @@ func (p *c15) Run(i int) (res fw.Result) {
 }
 
 func (p *c15) Rule() string {
-	return "cases: every value of the Go-value zoo (nil, bools, every numeric kind at boundaries, float specials, strings incl. numeric spellings and invalid UTF-8, decimals, Stringer/Number/Boolean implementers by value and by pointer, typed nil pointers, slices, maps, arrays, structs, funcs, chans, complex, nested safe wrappers) for totality, fallback ('',0,false for unsupported kinds) and wrapper transparency at 1..3 levels; 39 boundary integers and the whole int16 range carried by every Go numeric kind that holds them exactly (same string/number/truth value, plain decimal string); seeded random float64 bit patterns, dyadic/decimal fractions and integral floats for float64->string->number identity (bit-exact) and plain-integer printing below 10^6; decimal numeric strings in 5-7 spellings (shortest, %e with 17 digits, %E, fixed, fixed with 20 decimals, leading '+', leading zeros) for string->number. Non-trivial: all enumerated values are distinct by construction; random floats/strings deduplicated by spelling."
+	return "cases: every value of the Go-value zoo (nil, bools, every numeric kind at boundaries, float specials, strings incl. numeric spellings and invalid UTF-8, decimals, Stringer/Number/Boolean implementers by value and by pointer, typed nil pointers, slices, maps, arrays, structs, funcs, chans, complex, nested safe wrappers) for totality, fallback ('',0,false for unsupported kinds) and wrapper transparency at 1..3 levels; 51 boundary integers (incl. integers beyond 2^24 that a float32 still holds exactly) and the whole int16 range carried by every Go numeric kind that holds them exactly (same string/number/truth value, plain decimal string); seeded random float64 bit patterns, dyadic/decimal fractions and integral floats for float64->string->number identity (bit-exact; half of them right after the nearest float32 was printed, and printed twice) and plain-integer printing below 10^6; decimal numeric strings in 5-7 spellings (shortest, %e with 17 digits, %E, fixed, fixed with 20 decimals, leading '+', leading zeros) for string->number. Non-trivial: all enumerated values are distinct by construction; random floats/strings deduplicated by spelling."
 }
 
 func (p *c15) Assumptions() []string {
